@@ -1100,7 +1100,43 @@ def m_maplike_get(eng, st, fr, fn, args, t):
     return _ret(st, ("optref", a[1], a[2] + (("entry", key),), fn["name"] == "get_mut"))
 
 
+def m_lazy_get(eng, st, fr, fn, args, t):
+    """lazy_static: Lazy::get(&LAZY, init) -> &T where T is the value `init` returns (evaluated by
+    summarising the initialiser; it must be straight-line)."""
+    f = args[1]
+    if f[0] != "fn":
+        return None
+    body = eng.facts.bodies.get(f[1])
+    if body is None:
+        return None
+    sub = Engine(eng.facts, inline=eng.inline_pred, models=eng.models, max_depth=eng.max_depth)
+    ps = [p for p in sub.run(body) if p.outcome == "return"]
+    if len(ps) != 1:
+        return None
+    cell = ("M", ("lazy", f[1]))
+    if cell not in st.store:
+        st.store[cell] = ps[0].ret
+    return _ret(st, ("ref", cell, (), False))
+
+
+def _arith(op):
+    def m(eng, st, fr, fn, args, t):
+        a, b = args[0], args[1]
+        if isinstance(a, tuple) and a and a[0] == "ref":
+            a = eng.read_loc(st, a[1], a[2])
+        if isinstance(b, tuple) and b and b[0] == "ref":
+            b = eng.read_loc(st, b[1], b[2])
+        return _ret(st, ("bin", op, a, b, (fn.get("self_ty") or (fn.get("substs") or ["?"])[0])))
+    return m
+
+
 DEFAULT_MODELS = {
+    "lazy_static::lazy::Lazy::<T>::get": m_lazy_get,
+    "core::ops::arith::Add::add": _arith("Add"),
+    "core::ops::arith::Sub::sub": _arith("Sub"),
+    "core::ops::arith::Mul::mul": _arith("Mul"),
+    "core::ops::arith::Div::div": _arith("Div"),
+    "core::ops::arith::Rem::rem": _arith("Rem"),
     "mina_core::animator::MapLike::get": m_maplike_get,
     "mina_core::animator::MapLike::get_mut": m_maplike_get,
     "core::ops::deref::Deref::deref": m_identity_deref,
@@ -1164,6 +1200,8 @@ def show(t, depth=0):
         return "discr(%s)" % show(t[1], d)
     if k == "bin":
         return "(%s %s %s)" % (show(t[2], d), t[1], show(t[3], d))
+    if k == "lazy":
+        return "lazy(%s)" % t[1]
     if k == "un":
         return "%s(%s)" % (t[1], show(t[2], d))
     if k == "cast":
